@@ -419,7 +419,32 @@ def driver_line(c):
     return 'listen %d %d %s' % (c['public'], BOUND, FAIL_MODEL[c['fail']])
 
 
+def wait_history(c):
+    """what happens after the forwarding request went out, as run_listen() makes it happen: the answer to the creating command, the
+    HS_DESC events (ours: own=1, another service's: own=0; directories 1 and 2) and a loss of the connection — for the model of the
+    wait (`listenWith`).  `None`: the case is one the step model `listen` is asked about instead."""
+    if c.get('retry') or c.get('relisten') or c.get('sibling') or c.get('single') or c.get('how') in ('system_tor', 'string'):
+        return None
+    f = c['fail']
+    if f not in ('none', 'command', 'uploads', 'disconnect'):
+        return None
+    known0 = c['kind'].startswith('fs')
+    ours = ['u:1:1', 'u:1:2'] + (['f:1:1', 'f:1:2'] if f == 'uploads' else ['d:1:1', 'd:1:2'])
+    if c.get('foreign_first'):
+        h = ['u:0:1', 'd:0:1', 'u:0:2', 'd:0:2', 'r']
+    elif c.get('events_first'):
+        return known0, f != 'command', ours + ['r']
+    else:
+        h = ['r']
+    if f == 'command':
+        return known0, False, h
+    return known0, True, h + (['l'] if f == 'disconnect' else ours)
+
+
 def driver_lines(c):
+    wh = wait_history(c) if c.get('api') == 'listen' else None
+    if wh is not None:
+        return ['listenw %d %d %d %d %s' % (c['public'], BOUND, 1 if wh[0] else 0, 1 if wh[1] else 0, ' '.join(wh[2]))]
     if c.get('sibling'):
         return ['listen 8080 %d none' % BOUND, 'listen %d %d %s' % (c['public'], BOUND + 1, FAIL_MODEL[c['fail']])]
     ls = [driver_line(c)]
